@@ -20,9 +20,9 @@ func init() {
 	register(&obs.Monitor{
 		ID:    "C06",
 		Level: "exploration",
-		Rule: "one call per case on a linear.Seq or linear.QSeq (DNA = complementing, Protein = reverse only; length 0..60, offset -20..20, linear/circular): Truncate with start/end over [offset-3,end+3]^2 in both orders, Join at either end, " +
+		Rule: "one call per case on a linear.Seq or linear.QSeq (DNA = complementing, Protein = reverse only; length 0..60, offset -20..20, linear/circular): Truncate with start/end over [offset-3,end+3]^2 in both orders (1 in 6 with MinInt64/MaxInt64-side coordinates, 1 in 3 into a reused circular destination), Join at either end, " +
 			"Stitch and Compose with 0..6 features (overlapping, nested, abutting, unsorted, partly outside; wholly outside only for Stitch; every orientation mix), dst==src and dst!=src, Trim on a dyadic-valued QualityFeature (exact) and on real QSeq qualities (1e-9). " +
-			"Oracle: clean-room positional model; source unchanged and storage-independent from the result. Non-trivial = non-empty sequence and (>=2 features or a wrapping/out-of-range truncation or a join or a trim); distinct = op+parameters+letters",
+			"Oracle: clean-room positional model; source unchanged (conformation included) and storage-independent from the result. Non-trivial = non-empty sequence and (>=2 features or a wrapping/out-of-range truncation or a join or a trim); distinct = op+parameters+letters",
 		Batches: func(t string) int {
 			if t == "thorough" {
 				return 16
